@@ -1109,3 +1109,6 @@ M('C17', 'hidden-effect-in-drop-impl', OPS, "        let res: Val = env.invoke_c
   "        let res: Val = env.invoke_contract(&contract, &func, args);\n\n        extend_instance_ttl(&env);\n\n        let _guard = Grant { env: &env, who: contract.clone() };\n\n        Ok(res)\n    }\n}\n\nstruct Grant<'a> {\n    env: &'a Env,\n    who: Address,\n}\n\nimpl Drop for Grant<'_> {\n    fn drop(&mut self) {\n        self.env.storage().instance().set(&DataKey::Operators(self.who.clone()), &true);\n    }\n}\n", 'C17')
 M('C17', 'hidden-effect-in-manual-partialeq', OPS, "        let res: Val = env.invoke_contract(&contract, &func, args);\n\n        extend_instance_ttl(&env);\n\n        Ok(res)\n    }\n}\n",
   "        let res: Val = env.invoke_contract(&contract, &func, args);\n\n        extend_instance_ttl(&env);\n\n        let probe = Probe { env: &env, who: contract.clone() };\n        let _ = probe == probe;\n\n        Ok(res)\n    }\n}\n\nstruct Probe<'a> {\n    env: &'a Env,\n    who: Address,\n}\n\nimpl PartialEq for Probe<'_> {\n    fn eq(&self, other: &Self) -> bool {\n        self.env.storage().instance().set(&DataKey::Operators(other.who.clone()), &true);\n        true\n    }\n}\n", 'C17')
+M('C02', 'ft-validate_with_payload-no-auth', GW, "        payload: Bytes,\n    ) -> bool {\n        caller.require_auth();\n\n        let payload_hash = env.crypto().keccak256(&payload).into();", "        payload: Bytes,\n    ) -> bool {\n        let payload_hash = env.crypto().keccak256(&payload).into();", 'C02.R1', base='features/gwmsg-f5')
+M('C07', 'ft-validate_with_payload-no-auth-c07', GW, "        payload: Bytes,\n    ) -> bool {\n        caller.require_auth();\n\n        let payload_hash = env.crypto().keccak256(&payload).into();", "        payload: Bytes,\n    ) -> bool {\n        let payload_hash = env.crypto().keccak256(&payload).into();", 'C07', base='features/gwmsg-f5')
+M('C17', 'ft-add_operators-no-owner', OPS, "    pub fn add_operators(env: Env, accounts: Vec<Address>) -> Result<(), ContractError> {\n        Self::owner(&env).require_auth();\n", "    pub fn add_operators(env: Env, accounts: Vec<Address>) -> Result<(), ContractError> {\n", 'C17.R3', base='features/gasops-f5')
